@@ -168,8 +168,8 @@ def PreOK (hs : Hs D) (st : RSt D) (p : Parsed) (skip : Bool) (es : List REntry)
 theorem precommit_inv (hs : Hs D) (st : RSt D) (p : Parsed) (skip : Bool) (r : RRec D)
     (hok : precommit hs st p skip = .ok r) :
     ∃ es eh blr a, PreOK hs st p skip es eh blr ∧
-      alhH hs (storedHdr hs st p es.length (if p.hdr.blTxID > 0 then blr else st.poolBlRoot) eh) = .ok a ∧
-      r = { hdr := storedHdr hs st p es.length (if p.hdr.blTxID > 0 then blr else st.poolBlRoot) eh,
+      alhH hs (storedHdr hs st p es.length (if p.hdr.blTxID > 0 then blr else zeros32) eh) = .ok a ∧
+      r = { hdr := storedHdr hs st p es.length (if p.hdr.blTxID > 0 then blr else zeros32) eh,
             entries := es, alh := a } := by
   simp only [precommit] at hok
   generalize hblr : (if p.hdr.blTxID > 0 ∧ st.lastPre > 0 then hs.enc (st.rootAt hs p.hdr.blTxID) else zeros32) = blr at hok
@@ -227,7 +227,7 @@ theorem precommit_inv (hs : Hs D) (st : RSt D) (p : Parsed) (skip : Bool) (r : R
   by_cases c13 : st.cfg.synced ∧ st.committed.length + st.cfg.maxActive ≤ st.lastPre
   · rw [if_pos c13] at hok; cases hok
   rw [if_neg c13] at hok
-  cases ha : alhH hs (storedHdr hs st p es.length (if p.hdr.blTxID > 0 then blr else st.poolBlRoot) eh) with
+  cases ha : alhH hs (storedHdr hs st p es.length (if p.hdr.blTxID > 0 then blr else zeros32) eh) with
   | error x => rw [ha] at hok; cases hok
   | ok a =>
   rw [ha] at hok
@@ -237,8 +237,8 @@ theorem precommit_inv (hs : Hs D) (st : RSt D) (p : Parsed) (skip : Bool) (r : R
 
 theorem precommit_intro (hs : Hs D) (st : RSt D) (p : Parsed) (skip : Bool) (es : List REntry) (eh : D)
     (blr : Bytes) (a : D) (h : PreOK hs st p skip es eh blr)
-    (ha : alhH hs (storedHdr hs st p es.length (if p.hdr.blTxID > 0 then blr else st.poolBlRoot) eh) = .ok a) :
-    precommit hs st p skip = .ok { hdr := storedHdr hs st p es.length (if p.hdr.blTxID > 0 then blr else st.poolBlRoot) eh,
+    (ha : alhH hs (storedHdr hs st p es.length (if p.hdr.blTxID > 0 then blr else zeros32) eh) = .ok a) :
+    precommit hs st p skip = .ok { hdr := storedHdr hs st p es.length (if p.hdr.blTxID > 0 then blr else zeros32) eh,
                                    entries := es, alh := a } := by
   obtain ⟨hes, c1, ⟨b, hb⟩, c2, c3, heh, c4, c5, c6, c7, c8, hblr, c9, c10, c11, c12, c13⟩ := h
   simp only [precommit]
@@ -341,7 +341,7 @@ theorem precommit_ts_irrelevant (hs : Hs D) (st : RSt D) (p : Parsed) (skip : Bo
     ∃ r', precommit hs st { p with hdr := { p.hdr with ts := ts' } } skip = .ok r' ∧
       r'.hdr = { r.hdr with ts := ts' } ∧ r'.entries = r.entries := by
   obtain ⟨es, eh, blr, a, hpre, ha, hr⟩ := ReplicaHdrAux.precommit_inv hs st p skip r hok
-  obtain ⟨a', ha'⟩ := ReplicaHdrAux.alhH_ok_swap hs (storedHdr hs st p es.length (if p.hdr.blTxID > 0 then blr else st.poolBlRoot) eh) a ts' p.hdr.md (Or.inr rfl) ha
+  obtain ⟨a', ha'⟩ := ReplicaHdrAux.alhH_ok_swap hs (storedHdr hs st p es.length (if p.hdr.blTxID > 0 then blr else zeros32) eh) a ts' p.hdr.md (Or.inr rfl) ha
   subst hr
   exact ⟨_, ReplicaHdrAux.precommit_intro hs st { p with hdr := { p.hdr with ts := ts' } } skip es eh blr a' hpre ha',
     rfl, rfl⟩
@@ -354,7 +354,7 @@ theorem precommit_txmd_irrelevant (hs : Hs D) (st : RSt D) (p : Parsed) (skip : 
     ∃ r', precommit hs st { p with hdr := { p.hdr with md := md' } } skip = .ok r' ∧
       r'.hdr = { r.hdr with md := md' } ∧ r'.entries = r.entries := by
   obtain ⟨es, eh, blr, a, hpre, ha, hr⟩ := ReplicaHdrAux.precommit_inv hs st p skip r hok
-  obtain ⟨a', ha'⟩ := ReplicaHdrAux.alhH_ok_swap hs (storedHdr hs st p es.length (if p.hdr.blTxID > 0 then blr else st.poolBlRoot) eh) a p.hdr.ts md'
+  obtain ⟨a', ha'⟩ := ReplicaHdrAux.alhH_ok_swap hs (storedHdr hs st p es.length (if p.hdr.blTxID > 0 then blr else zeros32) eh) a p.hdr.ts md'
     (Or.inl ⟨b', hmd⟩) ha
   obtain ⟨hes, c1, hb, c2, c3, heh, c4, c5, c6, c7, c8, hblr, c9, c10, c11, c12, c13⟩ := hpre
   have c2' : ¬ (es.length = 0 ∧ txmdEmptyOrExtraOnly md') := by
@@ -448,7 +448,7 @@ theorem precommit_alh (hs : Hs D) (st : RSt D) (p : Parsed) (skip : Bool) (r : R
 theorem precommit_stored_fields (hs : Hs D) (st : RSt D) (p : Parsed) (skip : Bool) (r : RRec D)
     (hok : precommit hs st p skip = .ok r) :
     r.hdr.id = st.lastPre + 1 ∧ r.hdr.id = p.hdr.id ∧ r.hdr.ts = p.hdr.ts ∧ r.hdr.blTxID = p.hdr.blTxID ∧
-    (p.hdr.blTxID > 0 → r.hdr.blRoot = p.hdr.blRoot) ∧ (p.hdr.blTxID = 0 → r.hdr.blRoot = st.poolBlRoot) ∧
+    (p.hdr.blTxID > 0 → r.hdr.blRoot = p.hdr.blRoot) ∧ (p.hdr.blTxID = 0 → r.hdr.blRoot = zeros32) ∧
     r.hdr.prevAlh = p.hdr.prevAlh ∧ r.hdr.prevAlh = hs.enc (st.preAlh hs) ∧
     r.hdr.version = p.hdr.version ∧ r.hdr.md = p.hdr.md ∧ r.hdr.nentries = p.hdr.nentries := by
   obtain ⟨es, eh, blr, a, ⟨hes, c1, hb, c2, c3, heh, c4, c5, c6, c7, c8, hblr, c9, c10, c11, c12, c13⟩, ha, hr⟩ :=
@@ -459,11 +459,11 @@ theorem precommit_stored_fields (hs : Hs D) (st : RSt D) (p : Parsed) (skip : Bo
   · show st.lastPre + 1 = p.hdr.id
     omega
   · intro hpos
-    show (if p.hdr.blTxID > 0 then blr else st.poolBlRoot) = p.hdr.blRoot
+    show (if p.hdr.blTxID > 0 then blr else zeros32) = p.hdr.blRoot
     rw [if_pos hpos]
     exact hbl
   · intro hz
-    show (if p.hdr.blTxID > 0 then blr else st.poolBlRoot) = st.poolBlRoot
+    show (if p.hdr.blTxID > 0 then blr else zeros32) = zeros32
     rw [if_neg (by omega)]
 
 end ImmuModel.Replica
